@@ -94,19 +94,20 @@ package ipfslog
 //@     invariant entries == nil || fresh(entries)
 //@     invariant forall j int :: 0 <= j && j < len(entries) ==> inMap(all, entries[j])
 
+// storedLog(l): the block of every entry and head of the log is in the block store (C17)
+//@ define storedLog(l *IPFSLog) = (forall k string :: has(om(l.Entries).values, k) ==> stored[om(l.Entries).values[k].Hash]) && (forall k string :: has(om(l.heads).values, k) ==> stored[om(l.heads).values[k].Hash])
+
 // ---- Append (C04, C02, C05, C06-denial) ----
 //@ define headHashIn(l *IPFSLog, k string) = has(om(l.heads).values, k)
 //@ func (*IPFSLog).Append
 //@   requires logInv(l) && (l.Identity.Provider != nil && l.Identity.Signatures != nil) && len(l.Clock.(*entry.LamportClock).ID) > 0
 //@   requires l.Clock.(*entry.LamportClock).Time < 4611686018427387904 && (forall k string :: has(om(l.heads).values, k) ==> etime(om(l.heads).values[k]) < 4611686018427387904)
 //@   lockrequires noLocksHeld()
-//@   modifies l.Clock, l.heads, om(l.Entries).keys, mapof(om(l.Entries).values), om(l.Next).keys, mapof(om(l.Next).values)
-//@   ensures validEntries(l.Entries)
-//@   ensures validEntries(l.heads)
-//@   ensures isOM(l.Next)
-//@   ensures sepMaps(l)
-//@   ensures validClock(l.Clock)
-//@   ensures l.Identity != nil && l.SortFn != nil && l.AccessController != nil && validAnyIO(l.io) && l.Storage != nil
+//@   requires [log-blocks-are-stored] storedLog(l)
+//@   modifies l.Clock, l.heads, om(l.Entries).keys, mapof(om(l.Entries).values), om(l.Next).keys, mapof(om(l.Next).values), stored, lastAdded, addCount
+//@   ensures logInv(l)
+//@   ensures [log-blocks-are-stored-on-every-exit] storedLog(l)
+//@   ensures [store-only-grows] forall c cid :: old(stored[c]) ==> stored[c]
 //@   ensures err == nil ==> validEntry(result0) && fresh(result0)
 //@   ensures [appended-entry-names-exactly-the-heads] err == nil ==> (forall k string :: old(has(om(l.heads).values, k)) ==> exists i int :: 0 <= i && i < len(result0.Next) && str(result0.Next[i]) == k)
 //@   ensures [appended-entry-names-only-heads] err == nil ==> (forall i int, k string :: 0 <= i && i < len(result0.Next) && k == str(result0.Next[i]) ==> old(has(om(l.heads).values, k)))
@@ -127,6 +128,7 @@ package ipfslog
 //@     invariant forall i int :: 0 <= i && i < $k ==> next[i] == $r[$k - 1 - i].Hash
 //@     invariant forall j int :: 0 <= j && j < $k ==> next[$k - 1 - j] == $r[j].Hash
 //@     invariant ref(next) != ref(refs)
+//@     invariant [sorted-heads-are-stored] forall j int :: 0 <= j && j < len($r) ==> stored[$r[j].Hash]
 //@     invariant [sorted-heads-have-distinct-hashes] forall j1 int, j2 int :: 0 <= j1 && j1 < j2 && j2 < len($r) ==> $r[j1].Hash != $r[j2].Hash
 //@     invariant [sorted-heads-are-heads] forall j int, k string :: 0 <= j && j < len($r) && k == ehash($r[j]) ==> old(has(om(l.heads).values, k))
 //@     invariant distinctCids(next)
@@ -136,11 +138,14 @@ package ipfslog
 //@     invariant forall j int, q int :: 0 <= j && j < len(refs) && 0 <= q && q < len(next) ==> refs[j] != next[q]
 //@     invariant forall j int, k string :: 0 <= j && j < len(refs) && k == str(refs[j]) ==> old(has(om(l.Entries).values, k)) || old(has(om(l.heads).values, k))
 //@     invariant forall m int, k string :: 0 <= m && m < len(references) && k == ehash(references[m]) ==> old(has(om(l.Entries).values, k)) || old(has(om(l.heads).values, k))
+//@     invariant forall m int :: 0 <= m && m < len(references) ==> stored[references[m].Hash]
+//@     invariant forall j int :: 0 <= j && j < len(refs) ==> stored[refs[j]]
 //@     loopkeeps elems(next)
 //@   loop 2
 //@     invariant forall q int :: 0 <= q && q < $k ==> r.Hash != next[q]
 //@   loop 3
 //@     invariant isOM(l.Next) && omInv(om(l.Entries)) && sepMaps(l)
+//@     invariant storedLog(l) && stored[e.Hash]
 //@     invariant forall k string :: has(om(l.Entries).values, k) == has(old(om(l.Entries).values), k) || k == ehash(e)
 //@     loopmodifies om(l.Next).keys, mapof(om(l.Next).values)
 
